@@ -81,6 +81,53 @@ inline GraphSpec ioSpec(Rng &r, bool directed) {
     }
     return g;
 }
+// few edges among large, byte-pattern-rich vertex indices (255, 256, 511, 65535, 65536, ...)
+inline GraphSpec ioSpecSparse(Rng &r, bool directed) {
+    static const unsigned interesting[] = {0, 1, 10, 13, 26, 32, 35, 127, 128, 254, 255, 256, 257, 511, 512, 767, 1000, 4095, 4351, 9999, 65279, 65535, 65536, 65791, 70000};
+    GraphSpec g;
+    g.directed = directed;
+    unsigned target = 1 + r.u(12);
+    std::set<Edge> seen;
+    unsigned cap = r.chance(1, 2) ? 25 : 18; // half of the cases stay below 4352 vertices
+    for (unsigned t = 0; t < target * 3 && seen.size() < target; ++t) {
+        VertexIndex a = interesting[r.u(cap)], b = r.chance(1, 6) ? a : interesting[r.u(cap)];
+        if (r.chance(1, 4)) a += r.u(3);
+        Edge e = canon(directed, a, b);
+        if (seen.insert(e).second) g.edges.push_back(e);
+    }
+    unsigned used = 0;
+    for (auto &e : g.edges) used = std::max(used, std::max(e.first, e.second) + 1);
+    g.n = used + (r.chance(1, 3) ? r.u(300) : 0);
+    return g;
+}
+// structural comparison that does not enumerate all vertex pairs (large sparse graphs)
+template <class G> std::string checkSparse(const G &g, const GraphSpec &s) {
+    std::ostringstream o;
+    if (g.getSize() != s.n) {
+        o << "getSize: expected " << s.n << " got " << g.getSize();
+        return o.str();
+    }
+    if (g.getEdgeNumber() != s.edges.size()) {
+        o << "getEdgeNumber: expected " << s.edges.size() << " got " << g.getEdgeNumber();
+        return o.str();
+    }
+    std::vector<Edge> got;
+    if (!collectEdges(g, s.edges.size() * 2 + 8, got)) return "edges(): enumeration did not end";
+    for (auto &e : got) e = canon(s.directed, e.first, e.second);
+    std::sort(got.begin(), got.end());
+    std::vector<Edge> want = s.edges;
+    std::sort(want.begin(), want.end());
+    if (got != want) {
+        o << "edges(): " << got.size() << " edges enumerated, they are not the " << want.size() << " expected ones";
+        return o.str();
+    }
+    for (auto &e : s.edges)
+        if (!g.hasEdge(e.first, e.second) || (!s.directed && !g.hasEdge(e.second, e.first))) {
+            o << "hasEdge(" << e.first << "," << e.second << "): expected true";
+            return o.str();
+        }
+    return "";
+}
 inline unsigned usedSize(const GraphSpec &s) {
     unsigned m = 0;
     for (auto &e : s.edges) m = std::max(m, std::max(e.first, e.second) + 1);
